@@ -50,6 +50,7 @@ class PostDict(TraitType):
 
 
 import collections
+from traits.constants import ComparisonMode
 
 
 class UList(list):
@@ -67,6 +68,9 @@ class PostOD(TraitType):
 class InitUL(TraitType):
     def init(self):
         self.default_value = UList([1])
+
+
+TEMPLATE_TUPLE = ([1, 2], 3)        # handed out by a default METHOD: the validated default must not share this list
 
 
 # one reusable definition object (what Trait(...) returns is a CTrait) used for several attributes and classes
@@ -101,6 +105,12 @@ def mk_class():
         cust_p = PostDict()
         cust_od = PostOD()
         cust_ul = InitUL()
+        tup_dyn = Tuple(List(Int), Int)                 # the default method returns one shared template tuple
+        cm_none = Any([1], comparison_mode=ComparisonMode.none)     # every assignment is a change - the first read of the default is none
+        cm_ident = Int(4, comparison_mode=ComparisonMode.identity)
+
+        def _tup_dyn_default(self):
+            return TEMPLATE_TUPLE
         tr_dd = __import__("traits.api", fromlist=["Trait"]).Trait(collections.defaultdict(list, a=[1]), dict)
         od = Any(collections.OrderedDict(a=1))          # dict / list SUBCLASS defaults: copied per instance like plain ones
         cnt = Any(collections.Counter("aab"))
@@ -144,20 +154,21 @@ def mk_class():
 
 
 NAMES = ["c_int", "c_str", "l_copy", "d_copy", "lst", "dct", "st", "inst", "dyn", "lazy", "tup_c", "tup_m", "uni", "over",
-         "uni_s", "uni_d", "uni_n", "cust_i", "cust_p", "od", "cnt", "sh_x", "sh_y", "cust_od", "cust_ul", "tr_dd"]
+         "uni_s", "uni_d", "uni_n", "cust_i", "cust_p", "od", "cnt", "sh_x", "sh_y", "cust_od", "cust_ul", "tr_dd", "tup_dyn", "cm_none", "cm_ident"]
 FRESH = {"l_copy", "d_copy", "lst", "dct", "st", "inst", "dyn", "lazy", "tup_m", "uni", "uni_s", "uni_d", "uni_n", "cust_i", "cust_p",
-         "od", "cnt", "cust_od", "cust_ul", "tr_dd"}
+         "od", "cnt", "cust_od", "cust_ul", "tr_dd", "tup_dyn", "cm_none"}
 EXPECT = {"c_int": 5, "c_str": "dflt", "l_copy": [1, 2], "d_copy": {"a": 1}, "lst": [1, 2, 3], "dct": {"k": 1}, "st": {1},
           "tup_c": (0, ""), "tup_m": ("", []), "uni": [], "over": 1, "lazy": [7, 8],
           "uni_s": set(), "uni_d": {}, "uni_n": set(), "cust_i": [1], "cust_p": {"p": 1},
           "od": collections.OrderedDict(a=1), "cnt": collections.Counter("aab"), "sh_x": 10.5, "sh_y": 0.5,
-          "cust_od": collections.OrderedDict(p=1), "cust_ul": [1], "tr_dd": {"a": [1]}}
+          "cust_od": collections.OrderedDict(p=1), "cust_ul": [1], "tr_dd": {"a": [1]}, "tup_dyn": ([1, 2], 3), "cm_none": [1], "cm_ident": 4}
 # a valid non-default value per kind (reset obligations)
 ASSIGN = {"c_int": lambda: 6, "c_str": lambda: "s", "l_copy": lambda: [9], "d_copy": lambda: {"z": 1}, "lst": lambda: [7],
           "dct": lambda: {"q": 2}, "st": lambda: {3}, "inst": lambda: Leaf(v=3), "dyn": lambda: ["mine"], "tup_c": lambda: (1, "a"),
           "tup_m": lambda: ("x", [1]), "uni": lambda: 3, "over": lambda: 5, "uni_s": lambda: 4, "uni_d": lambda: {"k": 1},
           "uni_n": lambda: "s", "cust_i": lambda: [5], "cust_p": lambda: {"q": 1}, "od": lambda: {"z": 2}, "cnt": lambda: {"q": 1},
-          "sh_x": lambda: 2.5, "sh_y": lambda: 3.5, "cust_od": lambda: {"q": 1}, "cust_ul": lambda: [5], "tr_dd": lambda: {"z": [2]}}
+          "sh_x": lambda: 2.5, "sh_y": lambda: 3.5, "cust_od": lambda: {"q": 1}, "cust_ul": lambda: [5], "tr_dd": lambda: {"z": [2]},
+          "tup_dyn": lambda: ([7], 8), "cm_none": lambda: [9], "cm_ident": lambda: 10 ** 6}
 
 
 def mutable_parts(v):
@@ -229,6 +240,8 @@ def first_read_harness(name, sub):
                 mine, theirs = mutable_parts(v1), mutable_parts(s1[1])
                 ex.check(all(a is not b for a in mine for b in theirs), "mutable defaults are not shared between instances")
                 tmpl = cls.class_traits()[name].default_value()[1]
+                if name == "tup_dyn":
+                    tmpl = TEMPLATE_TUPLE
                 ex.check(all(a is not t for a in mine for t in mutable_parts(tmpl)), "a mutable default is a fresh copy, not the class template")
                 # mutate mine, sibling's stays
                 before = repr(s1[1])
